@@ -9,20 +9,10 @@ use samlang_heap::PStr;
 fn evaluate_bin_op(operator: BinaryOperator, v1: i32, v2: i32) -> Option<i32> {
   match operator {
     BinaryOperator::MUL => Some(v1 * v2),
-    BinaryOperator::DIV => {
-      if v2 == 0 {
-        None
-      } else {
-        Some(v1 / v2)
-      }
-    }
-    BinaryOperator::MOD => {
-      if v2 == 0 {
-        None
-      } else {
-        Some(v1 % v2)
-      }
-    }
+    // Not folded when the divisor is 0 or when the division overflows (i32::MIN / -1),
+    // so that the target's behavior is kept and the compiler itself never panics.
+    BinaryOperator::DIV => v1.checked_div(v2),
+    BinaryOperator::MOD => v1.checked_rem(v2),
     BinaryOperator::PLUS => Some(v1 + v2),
     BinaryOperator::MINUS => Some(v1 - v2),
     BinaryOperator::LAND => Some(v1 & v2),
